@@ -434,6 +434,14 @@ def run(ch: Choices, opts: Dict[str, Any]) -> Dict[str, Any]:
         link.stop()
         if qm.errors:
             raise Violation("controller", f"memory|{qm.errors[0].split(' ')[0]}|{hw}|{eprs()}", {"errors": qm.errors[:3], **sample})
+        if transp:
+            # NV flavour: a controlled rotation is driven by the electron (virtual qubit 0) and acts on a carbon -- an
+            # instruction the other way round addresses the hardware in a way it does not have (this is C08's monitor, run
+            # here as well because only programs with entanglement make the SDK emit `mov` between registers the transpiler
+            # cannot follow)
+            bad = [(a, b) for (a, b) in node.env.crot_virtual if a != 0 or b == 0]
+            if bad:
+                raise Violation("controller", f"nv-controlled-rotation-not-driven-by-the-electron|{eprs()}", {"control,target": bad[:4], **sample})
     except Violation as v:
         v.info = info()  # type: ignore[attr-defined]
         raise
